@@ -549,12 +549,18 @@ def _check_jit_vs_python(m, fails):
         return 0
     args = (g.n_node, n_edges, g.face_x.values, g.face_y.values, g.face_z.values, nfc, g.node_x.values, g.node_y.values,
             g.node_z.values)
-    a = np.asarray(cf(*args))
     saved = dual_mod._order_nodes
     try:
+        a = np.asarray(cf(*args))
         if hasattr(saved, "py_func"):
             dual_mod._order_nodes = saved.py_func
         b = np.asarray(cf.py_func(*args))
+    except Exception as e:  # noqa: BLE001   (raised by the library on arguments Grid.get_dual itself would pass)
+        fails.append({"key": f"exception_{type(e).__name__}:construct_faces:compiled_or_python_body",
+                      "what": f"construct_faces raised {type(e).__name__}: {e}"[:300] + " on the arguments construct_dual passes for this mesh",
+                      "violated": "one dual face per node with >= 3 incident faces", "inputs": {"mesh": m["name"]},
+                      "observed": "exception", "expected": "the dual face table"})
+        return 1
     finally:
         dual_mod._order_nodes = saved
     if a.shape != b.shape or not np.array_equal(a, b):
